@@ -115,7 +115,18 @@ func (c *reconnectClient) Connect(ctx context.Context, clientID string, opts ...
 								c.options.PingInterval,
 								c.options.Timeout,
 							); err != nil {
-								c.Client().SetErrorOnce(err)
+								select {
+								case <-ctxKeepAlive.Done():
+									// Stopped by the reconnect loop; not a failure of this connection.
+									return
+								case <-baseCli.Done():
+									// The connection has already ended and its error is recorded.
+									return
+								default:
+								}
+								// Record the error on the connection it belongs to;
+								// c.Client() may already be the next connection.
+								baseCli.SetErrorOnce(err)
 								// The client should close the connection if PINGRESP is not returned.
 								// MQTT 3.1.1 spec. 3.1.2.10
 								baseCli.Close()
